@@ -1344,6 +1344,18 @@ class StateEngine(object):
                 continue
 
             """
+            If the execution has already ended (the results were only being
+            kept for events of terminated Branches that never arrived, e.g.
+            those of a MaxConcurrency block that was never launched) it must
+            not be ended a second time: only release what is still held.
+            """
+            if getattr(branch_metadata, "execution_ended", False):
+                for results in branch_metadata.results.values():
+                    self.acknowledge_event_list(results["ids"])
+                del self.branch_metadata[execution_arn]
+                continue
+
+            """
             Get the timeout from the expiry and StartTime stored in the context.
             We compute it rather than storing in branch_metadata as it's only
             used on edge cases when expiry has been exceeded.
